@@ -30,7 +30,7 @@ CHECKS = {
         'every location (hostile attribute values by kind incl. self/cyclic references, attribute delete/duplicate/rename/add, element delete/duplicate/move-under-every-element/rename-to-every-'
         'element-name/8 namespaces, 15 inserted node kinds at every child position, truncation at every token boundary, 22 byte-level edits) x {strict, permissive} parser; all pairs of a reduced '
         'alphabet (thorough); all MathML trees apply(head, 0-3 operands), container(name, 0-3 children), apply(H, C) over the validator\'s vocabulary + 5 unsupported names (quick), one arbitrary '
-        'operand among <= 3, depth 3 over 14 arity-sensitive operators (thorough); 16 scale structures at n in {1,10,100} (thorough: 250, and 1000 on the plain build) and 12 cycle kinds of length 1-3, each '
+        'operand among <= 3, depth 3 over 14 arity-sensitive operators (thorough); 16 scale structures at n in {1,10,100} (thorough: 250, and 1000 on the plain build) 14 dense/sparse connection graphs (K_n, K_n,n up to n = 16; chain/star/ring up to 100) with a hang horizon, and 12 cycle kinds of length 1-3, each '
         'pipeline stage in isolation. Every stage (parse, validate, print +autoIds +reparse, isDefined/hasImports/requiresImports/isResolved on every entity, resolve + flatten with an in-memory '
         'library under both importer modes, analyse, generate C and Python) runs on whatever the previous one returned. Complete for the stated bounds; nothing is sampled.',
    note='Trusted: ASan/UBSan and the exit status as crash oracle, libxml2 (called directly) as the reference for well-formedness, a harness-side SIGSEGV handler that names a stack overflow after '
@@ -95,7 +95,8 @@ CHECKS = {
         '216 quick), each built through the API and re-read from its printed form. Every model, component, units, variable and reset is cloned: field-by-field content incl. isOrderSet, encapsulation '
         'ids, import references, equivalences with ids; printed forms; equals both ways; no parent; no object shared with the original; equivalences closed over the clone. Then every member of '
         'the alphabet (all setters on every reachable sub-entity, add/remove of every child kind, equivalence add/remove/ids, import source url/id through the entity, ~50-250 per entity) is '
-        'applied to a fresh original and to a fresh clone and the other side must be unchanged (0.4 M mutations quick). A second family clones models with an equivalence to a variable outside '
+        'applied to a fresh original and to a fresh clone and the other side must be unchanged (0.4 M mutations quick). A reset-link grid (2 shapes x variable in {own, sibling, child, no component, null} x test_variable in the same five x order set/unset = 100 models) gets the same oracle and mutation phase, '
+        'plus: a link to a variable of the reset\'s own component must be re-targeted to the clone\'s variable at the same position. A further family clones models with an equivalence to a variable outside '
         'the model (no crash, own equivalences unchanged).',
    note='Trusted: canonical dumps (common.hpp, c10c11.hpp), the JSON->API builder, the repository printer/parser for the parsed origin and the printed-form comparison, ASan/UBSan. Known field '
         'losses are repaired on the clone from outside before the whole-object comparisons so that other differences still surface. The mutation phase of the parsed origin runs without ASan. Only one '
@@ -145,12 +146,12 @@ CHECKS = {
  'C13': dict(level='model_checking', ref='3/C13',
    technique='explicit-state breadth-first search over Annotator API histories with the implementation as transition relation (xstate.hpp), states de-duplicated on the models plus the annotator\'s hidden cache/counter; '
              'plus bounded-exhaustive placement of pre-existing ids; every transition judged against an independent traversal of the model',
-   text='Universe: a model with 3 components (one encapsulated, one imported), 2 variables with one equivalence, local and imported units, 1 unit child, 1 reset, 1 shared import source, and a second model '
-        'for foreign items. Alphabet (123 operations): setModel(m0|m1|null); after-setModel edits of 16 id carriers to "", "a", the next automatic id and its successor; add/remove entities; destroy the model; '
-        'assignAllIds(), assignAllIds(m0|m1|null), assignIds(type) for all 15 CellmlElementType values, assignId for 25 items (every carrier, foreign, out-of-range, null, inconsistent), clearAllIds x4. '
-        'Depth: quick 3 (no-ids start, full alphabet), 2 (mixed-ids start), 3 (38-operation core alphabet, both starts); thorough 3 (full, both starts) and 4 (core, both starts). Lookups (item, items, ids, '
+   text='Universe: a model with 5 components (one encapsulated, one imported that has a locally defined child component with its own nested child), 4 variables with two equivalences (one below the import), local and imported units, 1 unit child, 2 resets (one below the import), 1 shared import source, and a second model '
+        'for foreign items. Alphabet (157 operations): setModel(m0|m1|null); after-setModel edits of 16 id carriers to "", "a", the next automatic id and its successor and of the 11 carriers below the imported component to "a" and the next automatic id; add/remove entities; destroy the model; '
+        'assignAllIds(), assignAllIds(m0|m1|null), assignIds(type) for all 15 CellmlElementType values, assignId for 37 items (every carrier, foreign, out-of-range, null, inconsistent), clearAllIds x4. '
+        'Depth: quick 2 (full alphabet, both starts) and 3 (44-operation core alphabet, both starts); thorough 3 (full, both starts) and 4 (core, both starts). Lookups (item, items, ids, '
         'duplicateIds, itemCount, isUnique, 13 typed getters, indexed forms) and Printer::printModel(m, true) are observations in every reached state. Plus every placement of <= 1 (quick) / <= 2 (thorough) '
-        'menu ids on 19 carriers x 3 backgrounds x 36 assign* calls on a fresh annotator, and index >= count for every getter.',
+        'menu ids on 30 carriers x 3 backgrounds x 47 assign* calls on a fresh annotator, and index >= count for every getter.',
    note='Trusted: the traversal through public getters (reference), libxml2 for reading the printed text, ASan/UBSan as crash oracle, a mirrored AnnotatorImpl layout (verified by a start-up probe) used only for the '
         'de-duplication key and the "next automatic id" menu entry. Not claimed: histories longer than the depth, other universes (several connections between the same components, MathML ids), lookups without a model.'),
  'C15': dict(level='exploration', ref='3/C15',
@@ -210,7 +211,7 @@ CHECKS = {
    text='Bases: every component forest on <= 3 (quick) / 4 (thorough) components in every shape and child order x 1-2 variables per component x every set of <= 3 admissible connections x '
         'connection / units-group / naming (incl. concatenation look-alikes) / id-decoration patterns; one units definition in every reference x prefix x exponent x multiplier x second-child '
         'combination; variable units x initial value x interface; 0-2 resets over 1-3 connected components; every non-empty subset of 5 import kinds x shared/own source x ids x resolved by '
-        'Importer or not; 6 equation shapes x 3 contexts and one valid use of each of the 70 supported MathML elements. Each base must validate with zero issues; each injector (identifier '
+        'Importer or not; 6 equation shapes x 3 contexts and one valid use of each of the 70 supported MathML elements. Units chains of 1-4 user-defined levels with an exponent from {1,2,-1,0.5 (,3)} at every level x prefix/multiplier decoration x 4 innermost units are paired across a connection with base^p for every p a wrong reduction could yield (innermost only, outer dropped, outer only, sign lost, 1): zero issues iff p is the product of the exponents (computed by the harness), else a MAP_VARIABLES_ELEMENT error. Each base must validate with zero issues; each injector (identifier '
         'syntax, duplicate names, invalid/duplicate ids over 13 carrier kinds, standard-unit names, unit references/prefixes, units cycles of length 1-3, variable units/interface/initial value, '
         'interface sufficiency, unreachable / parentless / unit-incompatible connections, incomplete or misplaced resets, duplicate reset orders over the connected variable set, import '
         'href/reference/target/cycle faults, faults inside resolved libraries, and ~250 MathML faults: non-XML, wrong root, unsupported or foreign elements, DTD violations, arity and position per '
